@@ -74,6 +74,21 @@ def check_case(case, props, res=None):
             # anti-Hermitian part of U-1 (Hermitian mode) / U - U_inv (non-Hermitian) has no kept element
             if not gq.is_zero(gq.hadamard(gq.sub(U.get(n), Ud.get(n)), K)):
                 fail("gauge", n, "U - U† has a kept element")
+    if "coincide" in props and not herm:
+        # on Hermitian input the non-Hermitian mode must return the Hermitian-mode outputs
+        Hs = res["H"]
+        if all(gq.eq(M, gq.adj(M)) for M in Hs.d.values()) and not isinstance(case["fully"], dict) or \
+           (all(gq.eq(M, gq.adj(M)) for M in Hs.d.values()) and all(m == [list(r) for r in zip(*m)] for m in case["fully"].values())):
+            c2 = dict(case, hermitian=True)
+            try:
+                r2 = implrun.run(c2)
+                for name in ("H_tilde", "U", "U†"):
+                    for n in gq.orders_upto(case["nparam"], case["N"]):
+                        if not gq.eq(res["out"][name].get(n), r2["out"][name].get(n)):
+                            fail("coincide", n, "%s differs between hermitian=False and hermitian=True on Hermitian input" % name)
+                            break
+            except Exception as e:
+                fails.append(dict(what="hermitian=True run raised %s" % type(e).__name__, input=case, prop="run"))
     if "reference" in props and herm:
         try:
             ref = reference_solver(case, res["H"], K)
@@ -172,7 +187,7 @@ def sweep(ctx, ncases, props, kw, name="o_main", parallel=None):
     return dict(evaluations=len(results), nontrivial=len(nontrivial),
                 rule="random exact problems (blocks<=%s, block size<=%s, params<=%s, total order<=%s); non-trivial = distinct case with dim>=2 checked to order>=2; properties checked: %s"
                 % (kw.get("max_blocks", 3), kw.get("max_size", 3), kw.get("max_params", 2), kw.get("N", 3), ",".join(props)),
-                samples=samples, failures=failures[:20], distribution=sigs)
+                samples=samples, failures=failures, distribution=sigs)
 
 
 def gq_key(sig):
